@@ -44,6 +44,12 @@ def _geoms(tier):
     ]
     q.append(dict(bs=MB, sec=512, W=3, cut=0, at=0, total=None, seqs=[7, 6], regions=["meta", "bat"], meta_mb=2, bat_mb=3,
                   alpha="small", bigbuf=True))
+    # 4096-byte sectors on a disk larger than 4 GiB: block 2^32/block_size and beyond (chunk ratio depends on the sector size)
+    q.append(dict(bs=32 * MB, sec=4096, W=3, cut=4096 * 3, at=127, total=131, seqs=[7, 6], regions=["meta", "bat"], meta_mb=2,
+                  bat_mb=3, alpha="small"))
+    # "fixed" VHDX: LeaveBlockAllocated set, blocks still placed / stated arbitrarily (the flag does not change how to read)
+    q.append(dict(bs=MB, sec=512, W=3, cut=512, at=0, total=None, seqs=[7, 6], regions=["meta", "bat"], meta_mb=2, bat_mb=3,
+                  leave=True))
     if tier == "quick":
         return q
     t = []
@@ -131,7 +137,7 @@ def run_case(case, ctx):
     size = total * bs - g["cut"]
     buf = bootstrap.bufsize()
     img = B.build(states, slots, bs, sec, size, seqs=tuple(g["seqs"]), regions=tuple(g["regions"]), meta_mb=g["meta_mb"],
-                  bat_mb=g["bat_mb"], total_blocks=total, window_at=at)
+                  bat_mb=g["bat_mb"], total_blocks=total, window_at=at, leave_allocated=bool(g.get("leave")))
     disk = B.model(states, bs, sec, size, total_blocks=total, window_at=at)
     ctx.model([g, states, slots])
     ctx.executions += 1
